@@ -183,6 +183,14 @@ func init() {
 		st.Heap[o] = &StructVal{Fields: []Value{TEps, TEps}}
 		return one(h)
 	})
+	regI("error.Error", func(x *Exec, st *State, fr *Frame, in ssa.Instruction, recv *IfaceVal, args []Value) []Value {
+		// the text of an error value: some string determined by the error (nothing more is assumed)
+		x.assume("A-FMT")
+		if recv.Sym != nil {
+			return []Value{App("errtext", SBytes, recv.Sym)}
+		}
+		return []Value{Fresh("errtext", SBytes)}
+	})
 	regI("hash.Hash.Write", func(x *Exec, st *State, fr *Frame, in ssa.Instruction, recv *IfaceVal, args []Value) []Value {
 		x.assume("A-MD5")
 		d := x.sliceBytes(st, args[0].(*SliceVal))
